@@ -61,7 +61,12 @@ func (st *ystyle) scalar(n *ynode) string {
 	case !strings.ContainsAny(n.s, "'\n\\") && st.g.coin(0.5):
 		return "'" + n.s + "'"
 	default:
-		return yq(n.s)
+		q := yq(n.s)
+		if st.flowP > 0 && strings.Contains(n.s, "\t") && !strings.Contains(n.s, "\\") && st.g.coin(0.5) {
+			// inside double quotes a tab may be written as the escape or as the character itself
+			q = strings.ReplaceAll(q, "\\t", "\t")
+		}
+		return q
 	}
 }
 
@@ -204,10 +209,15 @@ type treeCtx struct {
 	xsdAlias string        // declared alias of the XML Schema namespace ("" = only xsd)
 	// atoms (cardinality on one plain property) that are written as an embedded Rego constraint with the same meaning
 	regoAtoms map[int]bool
+	depth     int // number of nested constraints around the rule being written
 }
 
 // regoFor: the embedded-Rego spelling of a cardinality atom on a single forward property, or "" when the atom has none
-func regoFor(a Atom, ix int) string {
+func regoFor(a Atom, ix int, depth ...int) string {
+	d := 0
+	if len(depth) > 0 {
+		d = depth[0]
+	}
 	if a.Path.P == nil || a.Path.Inv || *a.Path.P == "@type" || strings.HasPrefix(*a.Path.P, ApiExtNS) || a.Arg == nil {
 		return ""
 	}
@@ -216,7 +226,12 @@ func regoFor(a Atom, ix int) string {
 		return ""
 	}
 	// fragments placed in one failure branch share one rule body: every fragment uses a variable name of its own
-	return fmt.Sprintf(`vals_%d = nodes_array with data.nodes as object.get($node, "%s", []); $result = count(vals_%d) %s %d`, ix, *a.Path.P, ix, op, *a.Arg)
+	// ... and a fragment inside a nested constraint must not reuse a name of the rule around it (the comprehension would capture it)
+	v := fmt.Sprintf("vals_%d", ix)
+	if d > 0 {
+		v = fmt.Sprintf("vals_%d_in%d", ix, d)
+	}
+	return fmt.Sprintf(`%s = nodes_array with data.nodes as object.get($node, "%s", []); $result = count(%s) %s %d`, v, *a.Path.P, v, op, *a.Arg)
 }
 
 func (c *treeCtx) pathText(p Path) string {
@@ -307,7 +322,9 @@ func (c *treeCtx) asPc(r Rule) (pcEntry, bool) {
 		return pcEntry{path: c.pathText(a.Path), key: a.Kind, fill: func(m *ynode) { c.atomConstraint(m, a) }}, true
 	case r.Nested != nil:
 		p := c.pathText(c.paths[*r.PathIx])
+		c.depth++ // (embedded Rego inside the nested constraint lives in a comprehension that sees the variables of the rule around it)
 		inner := c.rule(*r.Nested)
+		c.depth--
 		if r.Q == nil {
 			return pcEntry{path: p, key: "nested", fill: func(m *ynode) { m.put("nested", inner) }}, true
 		}
@@ -353,7 +370,7 @@ func (c *treeCtx) pcMap(entries []pcEntry) *ynode {
 
 func (c *treeCtx) rule(r Rule) *ynode {
 	if r.Atom != nil && c.regoAtoms[*r.Atom] {
-		if code := regoFor(c.atoms[*r.Atom], *r.Atom); code != "" {
+		if code := regoFor(c.atoms[*r.Atom], *r.Atom, c.depth); code != "" {
 			return ymap().put("rego", ystr(code))
 		}
 	}
@@ -477,6 +494,9 @@ func profileTree(g *G, p ProfileSpec, shuffle bool, prefixes []string) *ynode {
 						msg := "failed " + v.Name
 						if int(v.Name[len(v.Name)-1])%4 == 1 {
 							msg += "\n" // a text that ends in a line break (what a block scalar with default chomping spells)
+						}
+						if int(v.Name[len(v.Name)-1])%4 == 2 {
+							msg = "failed\t" + v.Name + "\t." // tabs inside a text
 						}
 						m.put("message", ystr(msg))
 					default:
